@@ -18,11 +18,12 @@ theorem C17_leaving (leaving : Rat) (c : Cell) (h0 : 0 ≤ leaving) (h1 : leavin
     (c.pestsFrom (leavingCount leaving c)).1.s = c.s + leavingCount leaving c ∧
     (c.pestsFrom (leavingCount leaving c)).2 = leavingCount leaving c := act_leaving_facts leaving c h0 h1 hi
 
-/-- At the destination as many establish as there are susceptible hosts, the rest die. -/
-theorem C17_arrival (c : Cell) (k : Int) (hs : 0 ≤ c.s) (hk : 0 ≤ k) :
+/-- At the destination as many establish as there are susceptible hosts, the rest die. The
+    three equations hold for all `c`, `k` (the meaningful domain is `0 ≤ c.s`, `0 ≤ k`; `pests_to`
+    does the same integer arithmetic outside it). -/
+theorem C17_arrival (c : Cell) (k : Int) :
     (c.pestsTo k).2 = min k c.s ∧ (c.pestsTo k).1.i = c.i + min k c.s ∧
     (c.pestsTo k).1.s = c.s - min k c.s := by
-  have _ := hs; have _ := hk  -- not needed: the three equations hold for all `c`, `k`
   exact act_pestsTo_min c k
 
 /-- The first phase never lets a cell receive pests: after the departures every cell has at most
@@ -77,9 +78,10 @@ theorem C17_movement_once (schedule : List Nat) (steps : List Nat)
   rw [Nat.sub_zero, ← List.range_eq_range'] at h
   exact h
 
-/-- min(requested, hosts present) hosts move, together with their class and cohort membership. -/
+/-- min(requested, hosts present) hosts move, together with their class and cohort membership.
+    (`0 ≤ count` is not a hypothesis: a valid class draw `hd` exists only for a non-negative count.) -/
 theorem C17_movement_amount (src dst : Cell) (count : Int) (d : ClassDraw) (dE dM : List Int)
-    (hc : 0 ≤ count) (hn : src.nonNeg = true) (ht : src.totalsOK = true)
+    (hn : src.nonNeg = true) (ht : src.totalsOK = true)
     (hd : validClassDrawB src count d = true)
     (hE : d.e > 0 → ValidDraw src.e d.e dE) (hM : d.i > 0 → ValidDraw src.mort d.i dM)
     (hlenE : dst.e.length = src.e.length) (hlenM : dst.mort.length = src.mort.length) :
@@ -87,7 +89,6 @@ theorem C17_movement_amount (src dst : Cell) (count : Int) (d : ClassDraw) (dE d
     r.2.2 = min count src.hosts ∧ src.hosts - r.1.hosts = min count src.hosts ∧
     r.2.1.hosts - dst.hosts = min count src.hosts ∧
     addL r.1.e r.2.1.e = addL src.e dst.e ∧ addL r.1.mort r.2.1.mort = addL src.mort dst.mort := by
-  have _ := hc  -- not needed
   exact act_moveHosts_amount src dst count d dE dM hn ht hd hE hM hlenE hlenM
 
 example : departs (1/2) ⟨1, [], 3, 0, 0, [3], 0, 4⟩ = true := by
